@@ -47,7 +47,9 @@ type ModelInput struct {
 	Off  *Term
 	Arr  *Term
 	T    *Term
+	Nil  *Term
 	Type string
+	GoT  types.Type
 }
 
 type ctl struct {
@@ -105,6 +107,7 @@ type Exec struct {
 	curPos        token.Pos
 	litReturn     *[]*State
 	nReturns      int
+	replay        *ReplayInfo
 }
 
 func (x *Exec) fail(pos token.Pos, format string, args ...interface{}) {
